@@ -1,7 +1,8 @@
 //! C14 (kernel, integer branch) — displayed integers read back as the value they show.
 //!
 //!   cfg 0 = digit separator ("_" "," or "none"), cfg 1 = grouping threshold, cfg 2 = bound B (|x| < B)
-//!   f64 0 = x, assumed integer-valued with |x| < B
+//!   cfg 3 = optional centre c of the window (|x - c| < B; default 0)
+//!   f64 0 = x, assumed integer-valued with |x - c| < B and |x| <= 2^53
 
 use numbat::verif_hooks::number::Number;
 use numbat::FormatOptions;
@@ -16,7 +17,9 @@ pub extern "C" fn h_c14_integer() {
     let threshold: usize = cfg(1).expect("cfg 1").trim().parse().unwrap();
     let bound: f64 = cfg(2).expect("cfg 2").trim().parse().unwrap();
     let x = f64_(0);
-    assume(x.trunc() == x && x.abs() < bound);
+    // cfg 3 (optional) = centre c of the window: |x - c| < B instead of |x| < B (integers below 2^53 throughout)
+    let centre: f64 = cfg(3).map(|c| c.trim().parse().unwrap()).unwrap_or(0.0);
+    assume(x.trunc() == x && (x - centre).abs() < bound && x.abs() <= 9007199254740992.0);
     let options = FormatOptions {
         digit_separator: sep.clone(),
         digit_grouping_threshold: threshold,
